@@ -1134,7 +1134,10 @@ def _get_torsions_and_laplacians(prefitting_model_config, prefitting_model,
     # Get lattice weights and normalize them.
     weights = _get_lattice_weights(prefitting_model, lattice_index)
     weights -= np.min(weights)
-    weights /= np.max(weights)
+    # A constant lattice has no variation to normalize (and would give 0 / 0).
+    max_weight = np.max(weights)
+    if max_weight > 0:
+      weights /= max_weight
     weights = tf.constant(weights)
 
     # Convert feature names in the lattice to their index in feature_names.
@@ -1362,7 +1365,12 @@ def _weighted_quantile(sorted_values, quantiles, weights):
             len(sorted_values), len(quantiles)))
   # Weighted quantiles of the observed (sorted) values.
   # Weights are spread equaly before and after the observed values.
-  weighted_quantiles = (np.cumsum(weights) - 0.5 * weights) / np.sum(weights)
+  total_weight = np.sum(weights)
+  if total_weight <= 0:
+    # Without any weight left all values count equally.
+    weights = np.ones(len(weights))
+    total_weight = np.sum(weights)
+  weighted_quantiles = (np.cumsum(weights) - 0.5 * weights) / total_weight
 
   # Use linear interpolation to find index of the quantile values.
   index_values = np.arange(len(sorted_values))
